@@ -118,6 +118,15 @@ TEMPLATES = [f"{{A}} {op} {{B}}" for op in BIN_TEXT] * 2 + [
     "local v = {A}; [v, v] == [{B}, {B}]", "{A} == {B} && {C} != {D}", "{A} < {B} || {C} >= {D}", "[{A}, {B}] < [{C}, {D}]", "[{A}] + [{B}] == [{C}, {D}]",
     "{{a: {A}}} == {{a: {B}}}", "{{a: {A}, b:: {B}}} == {{a: {C}}}", "{A} in {B} && {C}", "!({A} in {B}) || {C}",
     "{A} tailstrict", "{A}({B}) tailstrict",
+    # scoping: a name bound by one binder (parameter, comprehension variable, object local, default argument, local) and bound again
+    # further in - every use refers to the innermost binding that is in scope *at that use*, not to a later one
+    "local f(b) = (local a = b; local b = {A}; [a, b]); f({B})", "[(local a = x; local x = {A}; [a, x]) for x in [{B}]]", "{{local b = {B}, r: (local a = b; local b = {A}; [a, b])}}.r",
+    "(function(x, y=(local a = x; local x = {A}; [a, x])) y)({B})", "local b = {B}; (local a = b; local b = {A}; local c = a; [a, b, c])",
+    "local f(x) = (local y = x; local x = {A}; local z = y; [x, y, z]); f({B})", "local x = {A}; [x, (local x = {B}; x), x, (function(x) x)({C}), [x for x in [{D}]][0], x]",
+    "local x = {A}; {{local x = {B}, a: x, b: {{local x = {C}, c: x}}.c, d: x}}", "local a = {A}, b = a; local a = {B}; [a, b]", "local a = {A}; local b = a, a = {B}; [a, b]",
+    "[[x, y] for x in [{A}] for y in [x] for x in [{B}]]", "local f(x, y=x) = (local x = {A}; [x, y]); f({B})", "local x = {A}; local f(y=x) = (local x = {B}; y); f()",
+    "{{local v = {A}, a: {{local w = v, local v = {B}, r: [v, w]}}.r}}.a", "local v = {A}; {{a: v, b: (local v = {B}; self.a), c: v}}",
+    "local o = {{local v = {A}, f(v): v, g(x): v}}; [o.f({B}), o.g({C})]", "local x = {A}; local g() = x; local x = {B}; [g(), x]",
 ]
 WRAPS = ["(@)", "(@)", "(@)", "(local v = @; v)", "{k: @}.k", "[@][0]", "(if true then @)"]
 
